@@ -208,28 +208,82 @@ class Cluster:
         return 0, (job.id + suffix + "\n") if parsable else f"Submitted batch job {job.id}\n", ""
 
     def _slurm_squeue(self, args, stdin):
-        if "--noheader" not in args or not any(a.startswith("--format=") for a in args):
-            return 1, "", "squeue: error: unexpected arguments\n"
-        fmt = [a for a in args if a.startswith("--format=")][0][len("--format="):]
-        if fmt != "%i;%t":
-            return 1, "", "squeue: error: unsupported format in simulation\n"
+        # squeue(1): -h/--noheader, -o/--format, -a/--all; every job of every user is listed
+        import re as _re
+
+        noheader, fmt = False, "%.18i %.9P %.8j %.8u %.2t %.10M %.6D %R"
+        i = 0
+        while i < len(args):
+            a = args[i]
+            if a in ("--noheader", "-h"):
+                noheader = True
+            elif a in ("--format", "-o"):
+                fmt = args[i + 1] if i + 1 < len(args) else ""
+                i += 1
+            elif a.startswith("--format="):
+                fmt = a.split("=", 1)[1]
+            elif a in ("--all", "-a"):
+                pass
+            else:
+                return 1, "", f"squeue: unrecognized option '{a}'\n"
+            i += 1
+        head = {"i": "JOBID", "t": "ST", "T": "STATE", "j": "NAME", "P": "PARTITION", "u": "USER", "M": "TIME",
+                "D": "NODES", "R": "NODELIST(REASON)"}
+
+        def render(values):
+            def sub(m):
+                width, key = m.group(1), m.group(2)
+                v = values.get(key, "")
+                if width:
+                    n = int(width.lstrip("."))
+                    v = v[:n].rjust(n) if width.startswith(".") else v[:n].ljust(n)
+                return v
+
+            return _re.sub(r"%(\.?[0-9]+)?([a-zA-Z])", sub, fmt)
+
         out = []
+        if not noheader:
+            out.append(render(head))
         for jid in self.order:
             j = self.jobs[jid]
             if j.live:
-                out.append(f"{j.id};{j.code}")
+                out.append(render({"i": j.id, "t": j.code or "", "T": SLURM_LONG.get(j.code, j.code or ""),
+                                   "j": j.name or "", "P": "normal", "u": "user", "M": "0:00", "D": "1", "R": "(None)"}))
         return 0, "".join(ln + "\n" for ln in out), ""
 
     def _slurm_sacct(self, args, stdin):
         self.sacct_calls += 1
         if not self.accounting:
             return 1, "", "sacct: error: Slurm accounting storage is disabled\n"
-        if "--jobs" not in args:
+        # sacct(1): -j/--jobs, -n/--noheader, -P/--parsable2, -p/--parsable, -X/--allocations, -o/--format
+        opts = {"jobs": None, "noheader": False, "p2": False, "p1": False, "alloc": False, "format": None}
+        i = 0
+        while i < len(args):
+            a = args[i]
+            if a in ("--jobs", "-j", "--format", "-o"):
+                key = "jobs" if a in ("--jobs", "-j") else "format"
+                opts[key] = args[i + 1] if i + 1 < len(args) else ""
+                i += 1
+            elif a.startswith("--jobs=") or a.startswith("--format="):
+                opts["jobs" if a.startswith("--jobs=") else "format"] = a.split("=", 1)[1]
+            elif a in ("--noheader", "-n"):
+                opts["noheader"] = True
+            elif a in ("--parsable2", "-P"):
+                opts["p2"] = True
+            elif a in ("--parsable", "-p"):
+                opts["p1"] = True
+            elif a in ("--allocations", "-X"):
+                opts["alloc"] = True
+            else:
+                return 1, "", f"sacct: unrecognized option '{a}'\n"
+            i += 1
+        if opts["jobs"] is None:
             return 1, "", "sacct: error: simulation requires --jobs\n"
-        ids = args[args.index("--jobs") + 1].split(",")
+        fields = [f.strip().lower() for f in (opts["format"] or "jobid,jobname,partition,account,alloccpus,state,exitcode").split(",")]
+        ids = opts["jobs"].split(",")
         if self.sacct_limit is not None and len(ids) > self.sacct_limit:
             return 1, "", "sacct: error: Too many job ids in one query\n"
-        out = []
+        rows = []
         for jid in ids:
             j = self.jobs.get(jid)
             if j is None or j.acct is None:
@@ -237,8 +291,29 @@ class Cluster:
             long = SLURM_LONG.get(j.acct, j.acct)
             if j.acct == "CA":
                 long = "CANCELLED by 1000"
-            out.append(f"{j.id}|{long}")
-        return 0, "".join(ln + "\n" for ln in out), ""
+            recs = [(j.id, long)]
+            if not opts["alloc"] and getattr(j, "start_seq", None) is not None:
+                # without -X the job's steps are listed as well
+                recs += [(j.id + ".batch", long.split()[0]), (j.id + ".extern", "COMPLETED" if j.phase == "done" else long.split()[0])]
+            for rid, st in recs:
+                vals = {"jobid": rid, "state": st, "jobname": j.name or "", "partition": "normal", "account": "acc",
+                        "alloccpus": "1", "exitcode": "0:0"}
+                rows.append([vals.get(f, "") for f in fields])
+        header = [{"jobid": "JobID", "state": "State", "jobname": "JobName", "partition": "Partition", "account": "Account",
+                   "alloccpus": "AllocCPUS", "exitcode": "ExitCode"}.get(f, f) for f in fields]
+        lines = []
+        if opts["p2"] or opts["p1"]:
+            tail = "|" if opts["p1"] and not opts["p2"] else ""
+            if not opts["noheader"]:
+                lines.append("|".join(header) + tail)
+            lines += ["|".join(r) + tail for r in rows]
+        else:
+            w_ = 12
+            if not opts["noheader"]:
+                lines.append(" ".join(h[:w_].rjust(w_) for h in header))
+                lines.append(" ".join("-" * w_ for h in header))
+            lines += [" ".join(v[:w_].ljust(w_) for v in r) for r in rows]
+        return 0, "".join(ln + "\n" for ln in lines), ""
 
     def _slurm_scancel(self, args, stdin):
         ids = [a for a in args if not a.startswith("-")]
@@ -362,14 +437,40 @@ class Cluster:
         return 0, f"Job <{job.id}> is submitted to queue <{queue}>.\n", ""
 
     def _lsf_bjobs(self, args, stdin):
-        ids = [a for a in args if re.fullmatch(r"\d+", a)]
+        # bjobs(1): -noheader, -o "<field list>", job ids; without -o the default long line
+        noheader, fields, ids = False, None, []
+        i = 0
+        while i < len(args):
+            a = args[i]
+            if a == "-noheader":
+                noheader = True
+            elif a == "-o":
+                fields = (args[i + 1] if i + 1 < len(args) else "").split()
+                i += 1
+            elif a in ("-a", "-w"):
+                pass
+            elif re.fullmatch(r"\d+", a):
+                ids.append(a)
+            else:
+                return 255, "", f"bjobs: illegal option -- {a}\n"
+            i += 1
+        default = fields is None
+        if default:
+            fields = ["jobid", "user", "stat", "queue", "from_host", "exec_host", "job_name", "submit_time"]
         out, err = "", ""
+        rows = []
         for jid in ids:
             j = self.jobs.get(jid)
             if j is None or not j.live:
                 err += f"Job <{jid}> is not found\n"
                 continue
-            out += j.code + "\n"
+            vals = {"jobid": j.id, "user": "user", "stat": j.code, "queue": "normal", "from_host": "host", "exec_host": "-",
+                    "job_name": j.name or "", "submit_time": "Oct  3 10:00"}
+            rows.append([vals.get(f.split(":")[0].lower(), "-") for f in fields])
+        if rows and not noheader:
+            out += " ".join(f.split(":")[0].upper() for f in fields) + "\n"
+        for r in rows:
+            out += (" ".join(v.ljust(7) for v in r) if default else " ".join(r)) + "\n"
         return 0, out, err
 
     def _lsf_bkill(self, args, stdin):
